@@ -12,9 +12,9 @@ import (
 // C07 — optimizing a patch never changes what it produces (DESIGN §5 C07).
 
 type c07Spec struct {
-	PairSeed uint64        `json:"pairSeed"`
-	Shape    string        `json:"shape"` // tiny | generic | shares | larger
-	InComp   lib.Comp      `json:"inComp"`
+	PairSeed uint64          `json:"pairSeed"`
+	Shape    string          `json:"shape"` // tiny | generic | shares | larger
+	InComp   lib.Comp        `json:"inComp"`
 	Params   []lib.OptParams `json:"params"`
 }
 
@@ -244,9 +244,9 @@ func c07Run(c lib.Case, env *lib.Env) lib.Result {
 
 func init() {
 	lib.Register(&lib.Property{
-		ID:    "C07",
-		Level: "exploration",
-		Rule: "patches from pairs emphasising new files of 0..16 bytes next to old files of 0..40 bytes / several blocks, old files empty / 1-2 bytes, files mapped to a differently named old file (rename+edit), files made of equal shares of two old files, plus generic pairs; optimized by the real rediff with partitions 0..16 (all), ForceMapAll on/off, SuffixSortConcurrency {0,1,4,-1}, RediffSizeLimit {default,1,100,70000}, output compression {default, NONE, GZIP-6, BROTLI-1}, input patches in all three algorithms; optimizer run under a quiescence-based hang detector; optimized patch decoded against the grammar, applied fresh (always) and in place (every 4th), compared with the new build. distinct = distinct (shape, partitions, ForceMapAll, ssc, limit, output, input, produced-bsdiff)",
+		ID:          "C07",
+		Level:       "exploration",
+		Rule:        "patches from pairs emphasising new files of 0..16 bytes next to old files of 0..40 bytes / several blocks, old files empty / 1-2 bytes, files mapped to a differently named old file (rename+edit), files made of equal shares of two old files, plus generic pairs; optimized by the real rediff with partitions 0..16 (all), ForceMapAll on/off, SuffixSortConcurrency {0,1,4,-1}, RediffSizeLimit {default,1,100,70000}, output compression {default, NONE, GZIP-6, BROTLI-1}, input patches in all three algorithms; optimizer run under a quiescence-based hang detector; optimized patch decoded against the grammar, applied fresh (always) and in place (every 4th), compared with the new build. distinct = distinct (shape, partitions, ForceMapAll, ssc, limit, output, input, produced-bsdiff)",
 		Assumptions: []string{"in-place application is skipped for pairs with kind swaps (known C02 findings)"},
 		Flavors: func(tier string) []string {
 			if tier == "thorough" {
